@@ -444,6 +444,13 @@ class Scenario:
         return p
 
     def commit_all(self, msg="c", repo=None, extra=()):
+        if self.profile.get("hostile_messages"):
+            # commit messages whose body lines look like the header lines of a raw commit object (git-ai reads `tree` / `parent` from
+            # `cat-file --batch` output); the message travels with the commit through every rewrite
+            self.msg_n = getattr(self, "msg_n", 0) + 1
+            msg = [msg + "\n\ntree shaking: drop unused helpers\nparent directory is scanned first\n",
+                   "tree shaking: " + msg, msg + "\n\nparent 0000000000000000000000000000000000000000\ntree 4b825dc642cb6eb9a060e54bf8d69288fbee4904\n",
+                   msg][self.msg_n % 4]
         self.g("add", "-A", repo=repo)
         p = self.g("commit", "-q", "--allow-empty", "-m", msg, *extra, repo=repo)
         self.ops.append("commit")
